@@ -25,6 +25,7 @@ typedef c07::Exec<Opt> E;
 void mix(vh::Case& c) { c07::GenParams gp; gp.nmin = 5; gp.nmax = 28; E::random_case(c, gp, kKey64); }
 void longer(vh::Case& c) { c07::GenParams gp; gp.nmin = 29; gp.nmax = 60; E::random_case(c, gp, kKey64); }
 void insonly(vh::Case& c) { c07::GenParams gp; gp.nmin = 4; gp.nmax = 34; gp.insertion_only = true; E::random_case(c, gp, kKey64); }
+void churn(vh::Case& c) { c07::GenParams gp; gp.nmin = 20; gp.nmax = 48; gp.churn = true; E::random_case(c, gp, kKey64); }
 void exh(vh::Case& c) { E::exhaustive_case(c); }
 }  // namespace
 
@@ -35,5 +36,6 @@ extern "C" const char* __asan_default_options() { return "hard_rss_limit_mb=3072
 VH_CONFIG("mix_" C07_STR(C07_CT), mix);
 VH_CONFIG("long_" C07_STR(C07_CT), longer);
 VH_CONFIG("insonly_" C07_STR(C07_CT), insonly);
+VH_CONFIG("churn_" C07_STR(C07_CT), churn);
 VH_CONFIG("exh3_" C07_STR(C07_CT), exh);
 VH_MAIN()
